@@ -658,16 +658,18 @@ pub mod spec {
     /// relational denotation assumed for ParseFlag::eval (src/params.rs:534-564, iterator + std::env code):
     /// on the line -> leftmost matching item consumed, `present`; else variable set -> `present`, nothing consumed;
     /// else `absent` if there is one, otherwise a catchable Missing/NoEnv error; state untouched in the last three cases
-    pub open spec fn flag_rel<T>(named: NamedArg, present_v: T, absent_v: Option<T>, pre: State, r: Result<T, Error>, post: State) -> bool {
+    pub open spec fn flag_rel<T: Clone>(named: NamedArg, present_v: T, absent_v: Option<T>, pre: State, r: Result<T, Error>, post: State) -> bool {
         if exists|i: int| #[trigger] pre.avail(i) && named.matches_spec(pre.items[i], false) {
             exists|i: int| #[trigger] pre.first_match(named, false, i)
                 && post.item_state@ == pre.consumed1(i) && post.remaining == pre.remaining - 1
                 && post.items == pre.items && post.scope == pre.scope && post.path == pre.path
-                && r is Ok
+                && r is Ok && call_ensures(T::clone, (&present_v,), r->Ok_0) // the `present` value
         } else {
             same_but_current_c(post, pre) && (
-                if env_present(named.env@) { r is Ok }
-                else { match absent_v { Some(a) => r is Ok, None => r is Err && (r->Err_0.0 is Missing || r->Err_0.0 is NoEnv) } })
+                if env_present(named.env@) { r is Ok && call_ensures(T::clone, (&present_v,), r->Ok_0) }
+                else { match absent_v {
+                    Some(a) => r is Ok && call_ensures(T::clone, (&a,), r->Ok_0), // the declared `absent` value
+                    None => r is Err && (r->Err_0.0 is Missing || r->Err_0.0 is NoEnv) } })
         }
     }
 
